@@ -1,5 +1,5 @@
 """C15 — loading never resolves a global outside the allow-list (and own dumps load)."""
-import copy, sys, io, pickle, copyreg, types, datetime, decimal, uuid, collections, re as _re
+import os, copy, sys, io, pickle, copyreg, types, datetime, decimal, uuid, collections, re as _re
 from .. import core, pkl
 
 ID = 'C15'
@@ -441,6 +441,53 @@ def part_d(ctx):
         ctx.known_not_reproduced.append('F22')
 
 
+def part_e(ctx):
+    """a rejected payload has no side effect: a global of a sub-module that is importable but not imported yet (its package is) is refused
+    without importing the sub-module, i.e. without running its top-level code"""
+    import tempfile, shutil, pickle, importlib
+    from deepdiff import serialization as S
+    tmp = tempfile.mkdtemp(prefix='verif_c15_')
+    try:
+        pkg = os.path.join(tmp, 'verif_pkg15')
+        os.makedirs(os.path.join(pkg, 'tasks'))
+        open(os.path.join(pkg, '__init__.py'), 'w').write('')
+        open(os.path.join(pkg, 'tasks', '__init__.py'), 'w').write('')
+        marker = os.path.join(tmp, 'marker')
+        for rel in ('maintenance.py', os.path.join('tasks', 'cleanup.py')):
+            open(os.path.join(pkg, rel), 'w').write('open(%r, "a").write("ran\\n")\ndef run(*a):\n    return 1\n' % marker)
+        sys.path.insert(0, tmp)
+        importlib.invalidate_caches()
+        import verif_pkg15, verif_pkg15.tasks     # noqa: the packages are loaded, their sub-modules are not
+        names = [('verif_pkg15.maintenance', 'run'), ('verif_pkg15.tasks.cleanup', 'run')]
+        for stdlib in (('json.tool', 'main'), ('logging.config', 'dictConfig'), ('xml.dom.minidom', 'parse'), ('email.mime.text', 'MIMEText')):
+            if stdlib[0] not in sys.modules and stdlib[0].rsplit('.', 1)[0] in sys.modules:
+                names.append(stdlib)
+        for (m, n) in names:
+            for proto in (0, 2, 4):
+                before = m in sys.modules
+                payload = (b'c' + m.encode() + b'\n' + n.encode() + b'\n.') if proto < 4 else (b'\x80\x04\x8c' + bytes([len(m)]) + m.encode() + b'\x8c' + bytes([len(n)]) + n.encode() + b'\x93.')
+                ctx.evaluations += 1
+                case = {'kind': 'import_side_effect', 'module': m, 'name': n, 'protocol': proto}
+                try:
+                    S.pickle_load(payload)
+                    ctx.violate(case, 'a payload naming %s.%s loaded' % (m, n))
+                except S.ForbiddenModule:
+                    ctx.count('side_effect_forbidden')
+                except Exception as e:
+                    ctx.count('side_effect_other:' + type(e).__name__)
+                if not before and m in sys.modules:
+                    ctx.violate(case, 'the rejected payload imported %s (its top-level code ran)' % m)
+                    del sys.modules[m]
+        if os.path.exists(marker):
+            ctx.violate({'kind': 'import_side_effect', 'module': 'verif_pkg15.*', 'name': 'run'}, 'top-level code of a forbidden module ran while the payload was rejected')
+    finally:
+        if tmp in sys.path:
+            sys.path.remove(tmp)
+        for k in [k for k in sys.modules if k.startswith('verif_pkg15')]:
+            del sys.modules[k]
+        shutil.rmtree(tmp, ignore_errors=True)
+
+
 def run(ctx):
     core.witnesses(ctx, ID, {'F44': f44_witness})
     install_sentinel()
@@ -448,6 +495,7 @@ def run(ctx):
     part_b(ctx)
     part_c(ctx)
     part_d(ctx)
+    part_e(ctx)
 
 
 def f44_witness():
